@@ -4,6 +4,9 @@
 mod report;
 mod tlcin;
 mod vec_codec;
+mod wire;
+mod rp;
+mod gen;
 
 use std::collections::HashMap;
 use std::path::PathBuf;
@@ -55,6 +58,24 @@ fn main() {
             vec_codec::sweep_varint(&mut rep, args.num("threads", 16) as u32, args.num("shift", 0) as u32);
             rep.finish(args.out().as_deref())
         },
+        "sweep-bufsize" => {
+            let mut rep = Report::new("C06");
+            vec_codec::sweep_bufsize(&mut rep, args.num("max", 70000) as usize);
+            rep.finish(args.out().as_deref())
+        },
+        "rp-replay" => {
+            let prop = args.get("prop").unwrap_or("C01").to_string();
+            let mut rep = Report::new(&prop);
+            rp::run_replay(&prop, args.num("seed", 1), stdin.lock(), args.log(), &mut rep, args.num("threads", 12) as usize);
+            rep.finish(args.out().as_deref())
+        },
+        "rp-trace" => {
+            let prop = args.get("prop").unwrap_or("C01").to_string();
+            let mut rep = Report::new(&prop);
+            let path = PathBuf::from(args.get("trace").unwrap_or("/verif/out/rp.trace.ndjson"));
+            rp::run_trace(&prop, args.num("seed", 1), args.num("scenarios", 200), &path, &mut rep);
+            rep.finish(args.out().as_deref())
+        },
         "replay" => {
             let path = args.pos.first().cloned().unwrap_or_default();
             let doc: serde_json::Value = std::fs::read_to_string(&path).ok().and_then(|s| serde_json::from_str(&s).ok())
@@ -64,6 +85,9 @@ fn main() {
             let r = &doc["replay"];
             match r["kind"].as_str().unwrap_or("") {
                 "vector" => vec_codec::check_vector(&mut rep, &prop, &r["vector"]),
+                "rp-edge" => rp::replay_file(&prop, r, &mut rep),
+                "rp-bytes" => rp::replay_bytes(&prop, r, &mut rep),
+                "bufsize" => vec_codec::sweep_bufsize(&mut rep, r["n"].as_u64().unwrap_or(0) as usize),
                 k => { eprintln!("replay kind {k} is not supported by this build"); std::process::exit(2) },
             }
             rep.finish(None)
